@@ -28,6 +28,19 @@ META["C04"] = dict(
     note=CODEC_NOTE + " Pinned Spec/Tables.lean (reviewed against TS 24.501 V15.7) and Spec/Msg.lean (TS 24.007 framing) are the top of the trust chain.",
     technique="Lean 4 proof (encoder = spec renderer, decoder = spec table-driven decoder, tables = pinned tables by decide) + direct Go-vs-spec differential run")
 
+SEC_NOTE = ("Trusted: Lean kernel; the hand-written models of security.go / snow3g.go / zuc.go (tied to the code by the correspondence run, "
+            "incl. unexported leaf functions through build-tag-guarded hooks); the specification transcriptions (validated on published vectors); "
+            "AES/CTR/CMAC libraries modelled by Spec.AES. Lookup tables are regenerated from the source and compared with the standards' tables by decide.")
+META["C06"] = dict(
+    text="Partial proof. Kernel-checked: source S-box/D tables = standards' tables; modelled snow3g.GetKeyStream = SNOW 3G specification keystream for every key/IV/length; NEA2 = 128-EEA2 for every block cipher, key, COUNT, bearer 0-31, direction, payload. Not yet proved (stated as *_statement in Props/C06.lean): ZUC LFSR refinement and the NEA1/NEA3 byte loops vs the bit-string definitions; those are checked each run by comparing the real Go functions with the independent bit-level specifications at every bit length 0..200, all bearers/directions.",
+    note=SEC_NOTE, technique="Lean 4 proof (partial: SNOW 3G refinement, EEA2) + direct Go-vs-specification differential run")
+META["C07"] = dict(
+    text="Partial proof. Kernel-checked: NIA1's GF(2^64) mulx/mulxPow/mul = MULx/MULxPOW/MUL of the UIA2 specification for all operands; its keystream is the specification's; NIA2 = 128-EIA2 for every block cipher. Not yet proved: NIA1 block loop vs f9 and NIA3 bit loop vs 128-EIA3 (stated); checked each run by the direct Go-vs-specification stream at every message bit length.",
+    note=SEC_NOTE, technique="Lean 4 proof (partial: GF(2^64) arithmetic, EIA2) + direct Go-vs-specification differential run")
+META["C08"] = dict(
+    text="Kernel-checked on the model of NASEncrypt/NASMacCalculate for all algorithm ids/bearers/directions/payloads: invalid arguments give an error and leave the payload untouched; algorithm 0 is the identity / zero MAC; a MAC is exactly 4 octets; for algorithm 2 (any 16-octet block cipher): length preservation, involution, prefix stability, plaintext independence. The same laws for algorithms 1 and 3 and panic-freedom for every length are stated and evaluated on the real code by the oracle each run (not yet proved).",
+    note=SEC_NOTE, technique="Lean 4 proof (validation/NULL/MAC-length laws, AES-CTR laws) + Go/Lean correspondence + law oracle on the real code")
+
 NOT_APPLICABLE = {
  "C01": "check not built yet in this round (Lean model + correspondence planned, see DESIGN.md section 4); not claimed until it runs",
  "C02": "check not built yet in this round (Lean model + correspondence planned, see DESIGN.md section 4); not claimed until it runs",
